@@ -93,7 +93,8 @@ def stop_point(gt) -> int:
         else gt['final']
 
 
-def closure(case: dict, start: Optional[int] = None) -> dict:
+def closure(case: dict, start: Optional[int] = None,
+            start_tasks=None) -> dict:
     """Spawn-on-demand closure (DESIGN §4 'Closure model').
 
     Returns {'run': set((task, point)), 'stuck': set, 'incomplete': set,
@@ -134,6 +135,10 @@ def closure(case: dict, start: Optional[int] = None) -> dict:
             return (t, q, 'succeeded') in facts or (t, q, 'failed') in facts
         return (t, q, o) in facts
 
+    seeds = None
+    if start_tasks is not None:
+        seeds = {(n, int(p)) for p, n in (x.split('/', 1)
+                                          for x in start_tasks)}
     changed = True
     while changed:
         changed = False
@@ -144,6 +149,11 @@ def closure(case: dict, start: Optional[int] = None) -> dict:
             if beyond:
                 continue
             parentless = not rel and (t, p) not in seq_prev
+            if seeds is not None:
+                # start tasks: only the seeds, and later parentless
+                # instances of tasks already in the run set, auto-spawn
+                parentless = ((t, p) in seeds or (
+                    parentless and any((t, q) in run for q in range(cut, p))))
             spawned = parentless or any(sat_atom(a, p) for a in rel)
             if (t, p) in seq_prev and (
                     seq_prev[(t, p)] + ('succeeded',)) in facts:
@@ -153,6 +163,8 @@ def closure(case: dict, start: Optional[int] = None) -> dict:
             ok = all(eval_expr(ar, p, facts, cut) for ar in arrows)
             if (t, p) in seq_prev:
                 ok = ok and (seq_prev[(t, p)] + ('succeeded',)) in facts
+            if seeds is not None and (t, p) in seeds:
+                ok = True     # all prerequisites set satisfied at start-up
             if not ok:
                 continue
             run.add((t, p))
@@ -170,7 +182,7 @@ def closure(case: dict, start: Optional[int] = None) -> dict:
         if beyond:
             continue
         if any(sat_atom(a, p) for a in rel) or (
-                not rel and (t, p) not in seq_prev) or (
+                seeds is None and not rel and (t, p) not in seq_prev) or (
                 (t, p) in seq_prev and
                 (seq_prev[(t, p)] + ('succeeded',)) in facts):
             stuck.add((t, p))
